@@ -24,6 +24,8 @@ pub enum T {
     Bin(String),
     /// single-line string without holes: its value
     Str(String),
+    /// a chain of several terms (juxtaposition / `~>`)
+    Chain(Vec<T>),
     /// tuple name (None = anonymous), fields (label, value)
     Tup(Option<String>, Vec<(Option<String>, T)>),
 }
@@ -34,6 +36,7 @@ impl T {
             T::Leaf(n) => format!("(l {})", hx(n)),
             T::Int(d) => format!("(i {d})"),
             T::Str(v) => format!("(s {})", hx(v)),
+            T::Chain(ts) => format!("(c{})", ts.iter().map(|t| format!(" {}", t.sx())).collect::<String>()),
             T::Bin(h) => format!("(b {})", if h.is_empty() { "-" } else { h }),
             T::Tup(name, fs) => {
                 let mut s = format!("(t {}", name.as_ref().map_or("_".to_string(), |n| hx(n)));
@@ -56,6 +59,7 @@ impl T {
             T::Int(d) => d.clone(),
             T::Bin(h) => format!("0x{h}"),
             T::Str(v) => format!("\"{}\"", escape_single(v)),
+            T::Chain(ts) => ts.iter().map(|t| t.flat()).collect::<Vec<_>>().join(" "),
             T::Tup(Some(n), fs) if fs.is_empty() => n.clone(),
             T::Tup(name, fs) => format!(
                 "{}[{}]",
@@ -87,6 +91,17 @@ impl T {
             },
             T::Bin(h) => format!("0x{}", if r.chance(1, 3) { h.to_uppercase() } else { h.clone() }),
             T::Str(v) => format!("\"{}\"", escape_single(v)),
+            // between the terms of a chain: horizontal white space, or `~>` with any white space around
+            T::Chain(ts) => {
+                let mut s = String::new();
+                for (i, t) in ts.iter().enumerate() {
+                    if i > 0 {
+                        s.push_str(*r.pick(&[" ", "  ", "\t", " ~> ", "\n~> ", "\n  ~>\n  ", " ~>  "]));
+                    }
+                    s.push_str(&t.layout(r));
+                }
+                s
+            }
             T::Tup(Some(n), fs) if fs.is_empty() && r.chance(2, 3) => n.clone(),
             T::Tup(name, fs) => {
                 let mut s = format!("{}[", name.as_deref().unwrap_or(""));
@@ -217,6 +232,42 @@ fn bin_text(r: &mut Rng) -> String {
     r.bytes(n).iter().map(|b| format!("{b:02x}")).collect()
 }
 
+thread_local! { pub static CHAINS: std::cell::Cell<bool> = const { std::cell::Cell::new(false) }; }
+
+/// a field value or step: a term, or (one in four) a chain of 2-4 terms. Three quarters of the chains
+/// satisfy the restriction of step 3a (no bare identifier before the last term, last term not a tuple
+/// with fields); the others exercise the models outside the theorems (pipelines, tall steps, chains
+/// ending in a container).
+pub fn gen_value(r: &mut Rng, depth: usize) -> T {
+    if !CHAINS.with(|c| c.get()) || !r.chance(1, 4) {
+        return gen_term(r, depth);
+    }
+    let n = 2 + r.usize(3);
+    let restricted = r.chance(3, 4);
+    let mut ts = vec![];
+    for i in 0..n {
+        let last = i + 1 == n;
+        let mut t = gen_term(r, depth.min(2));
+        if restricted {
+            for _ in 0..20 {
+                let bad = if last { matches!(&t, T::Tup(_, fs) if !fs.is_empty()) } else { matches!(t, T::Leaf(_)) };
+                if !bad {
+                    break;
+                }
+                t = gen_term(r, depth.min(2));
+            }
+            if !last && matches!(t, T::Leaf(_)) {
+                t = T::Int("1".into());
+            }
+            if last && matches!(&t, T::Tup(_, fs) if !fs.is_empty()) {
+                t = T::Leaf("f".into());
+            }
+        }
+        ts.push(t);
+    }
+    T::Chain(ts)
+}
+
 pub fn gen_term(r: &mut Rng, depth: usize) -> T {
     if depth == 0 || r.chance(2, 5) {
         return match r.below(8) {
@@ -240,7 +291,7 @@ pub fn gen_term(r: &mut Rng, depth: usize) -> T {
         (0..n)
             .map(|_| {
                 let l = if labelled == 2 || (labelled == 1 && r.chance(1, 2)) { Some(name(r)) } else { None };
-                (l, gen_term(r, depth - 1))
+                (l, gen_value(r, depth - 1))
             })
             .collect(),
     )
@@ -268,10 +319,7 @@ fn term_of(t: &Term) -> Option<T> {
             let mut fs = vec![];
             for f in &tu.fields {
                 let FieldValue::Chain(c) = &f.value else { return None };
-                if c.match_pattern.is_some() || c.terms.len() != 1 {
-                    return None;
-                }
-                fs.push((f.name.clone(), term_of(&c.terms[0])?));
+                fs.push((f.name.clone(), chain_of(c)?));
             }
             Some(T::Tup(name, fs))
         }
@@ -279,15 +327,22 @@ fn term_of(t: &Term) -> Option<T> {
     }
 }
 
+fn chain_of(c: &quiver_compiler::ast::Chain) -> Option<T> {
+    if c.match_pattern.is_some() || c.terms.is_empty() {
+        return None;
+    }
+    if c.terms.len() == 1 {
+        return term_of(&c.terms[0]);
+    }
+    Some(T::Chain(c.terms.iter().map(term_of).collect::<Option<Vec<_>>>()?))
+}
+
 /// the steps of the program, if it is one sequence of one-term chains of the fragment
 pub fn of_ast(p: &Program) -> Option<Vec<T>> {
     let [Statement::Expression(seq)] = p.statements.as_slice() else { return None };
     let mut out = vec![];
     for chain in &seq.chains {
-        if chain.match_pattern.is_some() || chain.terms.len() != 1 {
-            return None;
-        }
-        out.push(term_of(&chain.terms[0])?);
+        out.push(chain_of(chain)?);
     }
     Some(out)
 }
@@ -356,6 +411,7 @@ fn report(ev: &mut Ev, what: &str, ts: &[T], src: &str, request: &str, imp: &str
 
 pub fn part_frag(ev: &mut Ev, model: &mut Model, opts: &Opts) {
     let cases: u64 = if opts.tier == qverif::Tier::Quick { 3000 } else { 40000 };
+    CHAINS.with(|c| c.set(!opts.has_flag("--frag-no-chains")));
     for i in 0..cases {
         let mut r = Rng::for_case(opts.seed ^ 0xf4a6, i);
         let steps = match r.below(6) {
@@ -366,7 +422,7 @@ pub fn part_frag(ev: &mut Ev, model: &mut Model, opts: &Opts) {
         let ts: Vec<T> = (0..steps)
             .map(|_| {
                 let depth = if steps > 3 { r.usize(3) } else { 1 + r.usize(4) };
-                gen_term(&mut r, depth)
+                gen_value(&mut r, depth)
             })
             .collect();
         let want = format!("ok (pp {}) -", prog_sx(&ts));
